@@ -596,6 +596,43 @@ func init() {
 					if len(accepted) == 0 {
 						continue
 					}
+					// whatever bytes are accepted, every CID-reporting API reports THEIR content address
+					wantV := manualCid(v.bytes)
+					cidOf := map[string]func() (cid.Cid, error){
+						"token.FromSealed":       func() (cid.Cid, error) { _, c, e := token.FromSealed(v.bytes); return c, e },
+						"token.FromSealedReader": func() (cid.Cid, error) { _, c, e := token.FromSealedReader(bytes.NewReader(v.bytes)); return c, e },
+					}
+					if t.typ == "dlg" {
+						cidOf["delegation.FromSealed"] = func() (cid.Cid, error) { _, c, e := delegation.FromSealed(v.bytes); return c, e }
+						cidOf["delegation.FromSealedReader"] = func() (cid.Cid, error) {
+							_, c, e := delegation.FromSealedReader(bytes.NewReader(v.bytes))
+							return c, e
+						}
+					} else {
+						cidOf["invocation.FromSealed"] = func() (cid.Cid, error) { _, c, e := invocation.FromSealed(v.bytes); return c, e }
+						cidOf["invocation.FromSealedReader"] = func() (cid.Cid, error) {
+							_, c, e := invocation.FromSealedReader(bytes.NewReader(v.bytes))
+							return c, e
+						}
+					}
+					for api, f := range cidOf {
+						if id, err := f(); err == nil && !bytes.Equal(id.Bytes(), wantV) {
+							rep.violation(map[string]any{"api": api, "token": t.typ + "/" + t.alg, "variant": v.desc}, fmt.Sprintf("%x", wantV), fmt.Sprintf("%x", id.Bytes()),
+								api+" reports a CID that is not the content address of the (accepted) bytes it was given")
+						}
+					}
+					fw := container.NewWriter()
+					fw.AddSealed(cborCid(v.bytes), v.bytes)
+					if data, err := fw.ToCar(); err == nil {
+						if rd, err := container.FromCar(data); err == nil {
+							for k := range rd {
+								if !bytes.Equal(k.Bytes(), wantV) {
+									rep.violation(map[string]any{"api": "container.Reader key", "token": t.typ + "/" + t.alg, "variant": v.desc}, fmt.Sprintf("%x", wantV), fmt.Sprintf("%x", k.Bytes()),
+										"a container files accepted bytes under a CID that is not their content address")
+								}
+							}
+						}
+					}
 					_ = sameContent
 					finding := map[string]string{"nonminimal": "LenientCbor", "indefinite": "LenientCbor", "permuted": "LenientCbor", "narrowfloat": "LenientCbor",
 						"undefined": "LenientCbor", "outer3": "OuterListNotLen2", "ecdsaflip": "EcdsaMalleable", "dervariant": "EcdsaMalleable"}[c.Enc[0][0]]
